@@ -10,6 +10,7 @@ application is built twice in one process and in fresh interpreter processes und
 the replies to the returned values and surfaces declared faults."""
 import hashlib
 import itertools
+import re
 import json
 import os
 import subprocess
@@ -422,6 +423,31 @@ def run_shard(shard, only=None):
                         structural(program, w5, res, V)
                 except Exception as e:
                     V('build', 'validator=%s|%s' % (validator, type(e).__name__), 'application / WSDL cannot be built with validator=%r: %r' % (validator, e))
+            # histories of ?wsdl requests on ONE transport object, from different addresses (Host, path, .wsdl form): every
+            # answer is a complete document and they differ in nothing but the service address
+            try:
+                from spyne.server.wsgi import WsgiApplication
+                # (a fresh application: nothing has been built for it yet)
+                b7 = spec.build(program)
+                wa = WsgiApplication(spec.make_app(b7, harness.make_proto(f['proto']), harness.make_proto(f['proto']), name=program.get('name', 'App')))
+                docs_seen = [w]
+                for host, path, query in (('localhost', '/app', 'wsdl'), ('other.example:8080', '/x/y', 'wsdl'), ('localhost', '/app', 'wsdl'),
+                                          ('third.example', '/app', 'WSDL'), ('other.example:8080', '/x/y', 'wsdl')):
+                    env = drv.environ('GET', path, query, b'', content_type=None, content_length=None)
+                    env['HTTP_HOST'] = host
+                    o = drv.call_wsgi(wa, env)
+                    if o.escaped is not None or not (o.status or '').startswith('200'):
+                        V('wsdl-history', 'not-served', 'request #%d (%s%s) of a ?wsdl history on one WsgiApplication: %r %r' % (len(docs_seen), host, path, o.status, o.escaped))
+                        break
+                    docs_seen.append(o.out)
+                    norm = re.sub(rb'location="[^"]*"', b'location=""', o.out)
+                    if norm != re.sub(rb'location="[^"]*"', b'location=""', docs_seen[0]):
+                        V('wsdl-history', 'differs', 'answer #%d (%s%s) of a ?wsdl history on one WsgiApplication differs from the published WSDL in more than the service address (%d vs %d bytes)' % (
+                            len(docs_seen) - 1, host, path, len(o.out), len(docs_seen[0])))
+                        structural(program, o.out, res, V)
+                        break
+            except Exception as e:
+                V('wsdl-history', type(e).__name__, 'a ?wsdl history raised %r' % (e,))
             w4 = drv.published_wsdl(app)
             if w4 != w:
                 V('nondeterministic-rebuild', 'after-validation-schema', 'the WSDL built after the validation schema differs from the first (%d vs %d bytes)' % (len(w), len(w4)))
